@@ -22,6 +22,7 @@ package forwarding
 
 import (
 	"encoding/hex"
+	"errors"
 	"fmt"
 	"strconv"
 	"strings"
@@ -133,6 +134,17 @@ func (a *HypAttributes) Validate() error {
 		}
 		if _, err := hex.DecodeString(strings.TrimPrefix(a.CustomHookMetadata, HypHookMetadataPrefix)); err != nil {
 			return fmt.Errorf("hook metadata must be hex-encoded: %w", err)
+		}
+	}
+
+	// NOTE: the Hyperlane module creates sdk.Coins from the max fee, which panics on an invalid
+	// coin. A zero amount is accepted with any denom because zero coins are discarded.
+	if a.MaxFee.Amount.IsNil() || a.MaxFee.Amount.IsNegative() {
+		return errors.New("max fee amount must be set and cannot be negative")
+	}
+	if !a.MaxFee.Amount.IsZero() {
+		if err := sdk.ValidateDenom(a.MaxFee.Denom); err != nil {
+			return fmt.Errorf("invalid max fee denom: %w", err)
 		}
 	}
 
